@@ -78,6 +78,9 @@ class OutBuf:
             self.obj = memoryview(self.ba)[2:2 + n]
         elif mode == "alias":
             self.obj = inbuf.obj
+        elif mode == "out_long":                     # an output buffer LONGER than the input (documented: ValueError)
+            self.ba = bytearray(b"\xee" * (n + 5))
+            self.obj = self.ba
 
     def delivered(self, returned, inbuf):
         if self.mode in ("ret", "na"):
@@ -95,6 +98,8 @@ class OutBuf:
     def guard_ok(self):
         if self.mode == "out_mv":
             return bytes(self.ba[:2]) == b"\xc3" * 2 and bytes(self.ba[2 + self.n:]) == b"\x3c" * 3
+        if self.mode == "out_long":
+            return bytes(self.ba[self.n:]) == b"\xee" * 5
         return True
 
 
@@ -394,6 +399,8 @@ def run_plan(f, factory, plan, variant, tagval, ref_fn):
     Returns the list of event records.  ref_fn(i) -> reference digest for tag-returning event i (or None)."""
     events = []
     o = None
+    if variant is None:
+        LAST[:] = [f, factory, plan, tagval]
     for i, st in enumerate(plan):
         op = st["op"]
         kind = variant["kinds"][i] if variant else "bytes"
@@ -755,16 +762,58 @@ def rec_aead(f, job, r):
 REC = {"hash": rec_hash, "tuple": rec_tuple, "cipher": rec_cipher, "aead": rec_aead}
 
 
+LAST = []
+
+
+def long_output_probe(twin, main_variant=None):
+    """the history of the twin (plain bytes) replayed on a fresh object, with ONE call given an output buffer five bytes longer than its
+    input.  Documented: ValueError.  If the call is accepted instead, everything delivered afterwards and every tag must still be what
+    the twin delivered (the result may not depend on the length of the caller's buffer) and the five spare bytes must stay untouched."""
+    none = {"has": False, "at": 0, "exc": "none", "guard": True, "outs": [], "tags": [], "twinouts": [], "twintags": [], "excs": [], "twinexcs": []}
+    if not LAST or not twin:
+        return none
+    f, factory, plan, tagval = LAST
+    if len(twin) != len(plan) or not f.get("out"):          # families whose encrypt()/decrypt() take no output= are left out
+        return none
+    # only calls that the main run made with output= (so the method is known to take the parameter for this family)
+    js = [i for i, st in enumerate(plan) if st["op"] in OUT_OPS and st["n"] > 0 and twin[i]["exc"] == "none"
+          and main_variant is not None and main_variant["modes"][i] in ("out_ba", "out_mv", "alias")]
+    if not js:
+        return none
+    j = js[len(js) // 2]
+    variant = {"kinds": ["bytes"] * len(plan), "modes": [("out_long" if i == j else ("ret" if st["op"] in OUT_OPS else "na")) for i, st in enumerate(plan)],
+               "scrib": set(), "sc": "none"}
+    saved = list(LAST)
+    ev = run_plan(f, factory, plan, variant, tagval, None)
+    LAST[:] = saved
+    pr = dict(none, has=True, at=j + 1, exc=ev[j]["exc"], guard=bool(ev[j]["guard"]))
+    if ev[j]["exc"] == "none":
+        pr["outs"] = [e["out"] for e in ev]
+        pr["tags"] = [e["tag"] if e["hastag"] else [] for e in ev]
+        pr["excs"] = [e["exc"] for e in ev]
+        pr["twinouts"] = [t["out"] for t in twin]
+        pr["twintags"] = [t["tag"] if t["hastag"] else [] for t in twin]
+        pr["twinexcs"] = [t["exc"] for t in twin]
+    else:
+        pr["excs"], pr["twinexcs"] = [], []
+    return pr
+
+
+_NONE_PROBE_KEYS = ("excs", "twinexcs")
+
+
 def record(job):
     f = FAM[job["fam"]]
     r = rng("c09/%s/%d" % (job["fam"], job["tid"]))
     FORCE["v"] = job.get("force")
+    del LAST[:]
     P, events, twin, oneshot, alts, variant = REC[f["cat"]](f, job, r)
     for e, t in zip(events, twin):
         e["twin"] = t["out"]
         e["twintag"] = t["tag"]
         e["twinexc"] = t["exc"]
-    return {"tid": job["tid"], "fam": job["fam"], "cat": f["cat"], "model": f["model"], "P": P, "scrib": variant["sc"],
+    probe = long_output_probe(twin if job["tid"] % 2 == 0 else [], variant)
+    return {"tid": job["tid"], "fam": job["fam"], "cat": f["cat"], "model": f["model"], "P": P, "scrib": variant["sc"], "probe": probe,
             "keyfam": f.get("mode", job["fam"]) if f["cat"] == "aead" else job["fam"], "force": job.get("force") or "",
             "events": events, "oneshot": oneshot, "alts": alts, "comp": {"a": job.get("a", []), "m": job.get("m", []), "r": job.get("r", [])}}
 
